@@ -409,6 +409,18 @@ fn do_op(ctx: &mut Ctx, line: &str) -> String {
             }
             format!("{}~~ord={}", parts.join("~~"), order_str(&big.order))
         }
+        "mateinfo" | "matecheck" => "-".to_string(),
+        "evalrel" => {
+            // evalrel fenA|fenMirror|fenFlip|fenOther : four evaluations
+            let mut out = Vec::new();
+            for f in rest.split('|') {
+                match BoardState::from_fen(f) {
+                    Ok(b) => out.push(evaluation::get_evaluation(&b).to_string()),
+                    Err(_) => out.push("x".to_string()),
+                }
+            }
+            out.join(" ")
+        }
         "zobrist" => {
             let mut out = Vec::new();
             let kinds = [
